@@ -5,7 +5,7 @@ mut=$1; shift
 WT=/tmp/wt-dev
 git -C $WT apply /verif/seeded/$mut/patch.diff || exit 2
 while [ $# -ge 2 ]; do
-  GOVC_REPO=$WT GOVC_EXT=/tmp/ext-dev GOVC_OUT=/tmp/govc-dev-out /verif/bin/govc.new verify -pkg "$1" -fn "$2" 2>&1 | grep -v "^loaded\|file:" | cut -c1-300
+  GOVC_REPO=$WT GOVC_OUT=/tmp/govc-dev-out /verif/bin/govc.new verify -pkg "$1" -fn "$2" 2>&1 | grep -v "^loaded\|file:" | cut -c1-300
   shift 2
 done
 git -C $WT apply -R /verif/seeded/$mut/patch.diff
